@@ -34,7 +34,7 @@ PROPS = {
                 undecided_sentences=["'methods of the concrete type': the vtable attached is the one whose function was built for the resource's own type id (proved); that this vtable dispatches to the concrete type's methods is rustc's unsizing coercion inside the user's CastFrom impl (unsafe, trusted)",
                                      "the `nightly` feature variant is not extracted", "'in first-registration order and once each' across successive next() calls is the per-call contract iterated (no history lemma is proved)"]),
     "C10": dict(runs=[dict(unit=U1, groups=["fit", "wid"])], own_groups=["fit", "wid"], undecided_sentences=[]),
-    "C04": dict(runs=[dict(unit=U1, groups=["once"])], own_groups=["once"], owns_shared=True,
+    "C04": dict(runs=[dict(unit=U1, groups=["once"]), dict(unit=U6, groups=["once", "aonce"], mode="T")], own_groups=["once", "aonce"], owns_shared=True,
                 undecided_sentences=["multiplicity on the parallel path rests on the assumed contract of rayon (rule R11: each closure called exactly once)"]),
     "C12": dict(runs=[dict(unit=U1, groups=["tl"]), dict(unit=U6, groups=["tlw"], mode="T")], own_groups=["tl", "tlw"],
                 undecided_sentences=["'on the thread that called dispatch, never on a pool worker' (thread identity) is not a contract over sequential code", "'after every other system has finished' in time: program order of inner.dispatch then the thread-local loop is proved, rayon's fork-join is trusted"]),
